@@ -224,9 +224,9 @@ def clean_run(scratch, inputs, producer, prev, tag):
     final = make_work(base, inputs, producer, prev)
     log = os.path.join(base, "strace.txt")
     rc, err = fsfault.run_traced(producer, base, log)
-    main, ops, killed, ended = fsfault.parse(log, os.path.join(base, "out"), final)
+    main, ops, killed, ended, allops = fsfault.parse(log, os.path.join(base, "out"), final)
     state, why = read_final(producer, final, inputs, prev)
-    return dict(rc=rc, err=err, ops=ops, ended=ended, state=state, why=why, base=base, killed=killed)
+    return dict(rc=rc, err=err, ops=ops, allops=allops, ended=ended, state=state, why=why, base=base, killed=killed)
 
 
 def inject_expr(op, fault):
@@ -248,7 +248,7 @@ def fault_run(args):
         else:
             inj = ("%s:signal=SIGKILL:when=%d" % (name, j)) if fault == "kill" else ("%s:error=%s:when=%d" % (name, fault, j))
             rc, err = fsfault.run_traced(producer, base, log, inject=inj)
-        main, ops, killed, ended = fsfault.parse(log, os.path.join(base, "out"), final)
+        main, ops, killed, ended, allops = fsfault.parse(log, os.path.join(base, "out"), final)
         hit = None
         if k <= n_clean:
             for idx, o in enumerate(ops):
@@ -262,8 +262,8 @@ def fault_run(args):
         if stable:
             break
     state, why = read_final(producer, final, inputs, prev)
-    ev, expect, multi = fsfault.abstract(ops, killed, rc)
-    out.update(multi=multi, rc=rc, stable=bool(stable), hit=hit, state=state, why=why, killed=killed, ended=ended,
+    ev, expect, multi, untracked = fsfault.abstract(allops, killed, rc, foreign_dirs=(os.path.join(os.path.realpath(base), "tmp"),))
+    out.update(multi=multi, untracked=untracked, rc=rc, stable=bool(stable), hit=hit, state=state, why=why, killed=killed, ended=ended,
                events=ev, expect=expect, stderr=err[-300:], nops=len(ops),
                optext=(ops[k - 1].text if k <= len(ops) else ""), opbrief=(ops[k - 1].brief() if k <= len(ops) else "end"))
     shutil.rmtree(base, ignore_errors=True)
@@ -328,6 +328,7 @@ def run(ctx):
     clean = {}
     traces = []
     meta = []
+    skipped_untracked = 0
     for p in PRODUCERS:
         a = clean_run(ctx.scratch, inputs, p, True, "a")
         b = clean_run(ctx.scratch, inputs, p, False, "b")
@@ -340,7 +341,10 @@ def run(ctx):
                           "(use the in-process shim of harness/c20_driver.py)" % p)
         clean[p] = a
         for r, prev in ((a, True), (b, False)):
-            ev, expect, _multi = fsfault.abstract(r["ops"], False, 0)
+            ev, expect, _multi, untracked = fsfault.abstract(r["allops"], False, 0, foreign_dirs=(os.path.join(os.path.realpath(r["base"]), "tmp"),))
+            if untracked:
+                skipped_untracked += 1
+                continue
             traces.append({"producer": fsfault.SPEC_PRODUCER[p], "prev": prev, "expect": expect, "ev": ev})
             meta.append({"producer": p, "fault": "none", "k": 0, "prev": prev})
         shutil.rmtree(a["base"], ignore_errors=True)
@@ -379,6 +383,8 @@ def run(ctx):
     for r in good:
         if r["multi"]:
             skipped_multi += 1          # two handles open on the temp at once: outside the one-handle model
+        elif r["untracked"]:
+            skipped_untracked += 1      # renamed from a file this trace never saw being written: the reader check decides
         else:
             traces.append({"producer": fsfault.SPEC_PRODUCER[r["producer"]], "prev": r["prev"], "expect": r["expect"], "ev": r["events"]})
             meta.append({"producer": r["producer"], "fault": r["fault"], "k": r["k"], "prev": r["prev"], "op": r["opbrief"]})
@@ -427,7 +433,7 @@ def run(ctx):
                  if r["k"] <= len(clean[r["producer"]]["ops"]) and (r["killed"] or r["rc"] != 0 or r["state"] != "new")}
     ctx.set_cover(evaluations=len(results), distinct_nontrivial=len(effective), unstable_runs=len(unstable),
                   states=states, transitions=trans, traces_validated_against_impl=len(traces) - len(rejected),
-                  trace_states=tstates, traces_skipped_two_handles=skipped_multi, traces_rejected_by_transcription=len(rejected), transcription_drift=drift[:5],
+                  trace_states=tstates, traces_skipped_two_handles=skipped_multi, traces_skipped_untracked_source=skipped_untracked, traces_rejected_by_transcription=len(rejected), transcription_drift=drift[:5],
                   positions={p: len(clean[p]["ops"]) for p in PRODUCERS}, outcomes=outcomes,
                   exhaustive=not quick, nonvacuity=nonvac, action_coverage={a: cov.get(a) for a in ACTIONS},
                   rule="for every producer, every position k of its clean syscall sequence on the output directory "
@@ -458,7 +464,7 @@ def replay(ctx, path):
     ops = c["ops"]
     k = rec["k"]
     if rec["fault"] == "none" or k == 0:
-        ev, expect, _multi = fsfault.abstract(ops, False, c["rc"])
+        ev, expect, _multi, _untracked = fsfault.abstract(c["allops"], False, c["rc"], foreign_dirs=(os.path.join(os.path.realpath(c["base"]), "tmp"),))
         acc, _res = validate_traces(ctx, [{"producer": "generic", "prev": rec["prev"], "expect": expect, "ev": ev}], "generic-replay")
         if not acc:
             ctx.violation("%s trace breaks the publication discipline (fault=none)" % p, "clean trace rejected", rec)
